@@ -216,11 +216,17 @@ pub fn c02(cfg: &Config, tr: &Trace, an: &Analysis, out: &mut Vec<Violation>) {
                     ),
                 ));
             }
-            if !complete && tr.ended {
+            let escaped = tr.anomalies.iter().any(|x| matches!(x, Anomaly::EscapedPanic(_)));
+            if !complete && (tr.ended || escaped) {
                 out.push(v(
                     "C02",
                     "unfinished",
-                    format!("scenario {} attempt {} never got Finished", sc.info.name, a.current),
+                    format!(
+                        "scenario {} attempt {} never got Finished{}",
+                        sc.info.name,
+                        a.current,
+                        if escaped { " (a panic escaped the run)" } else { "" }
+                    ),
                 ));
             }
             // same retry counter on every event, and the right one
